@@ -8,6 +8,7 @@ Only statements and their final proofs live here; lemmas are in Verif.Proofs.DS.
 import Verif.Proofs.DS.OrderedMap
 import Verif.Proofs.DS.BiMap
 import Verif.Proofs.DS.IntervalST
+import Verif.Proofs.DS.PersistentSet
 namespace Verif.Properties.C51
 open Verif.DS Verif.Model.DS
 
@@ -79,7 +80,42 @@ theorem bimap_zero_value {K V : Type} [DecidableEq K] [DecidableEq V] (ops : Lis
       BiMap.getInverse (.zero : BiMap.BM K V) v = none :=
   ⟨Verif.Proofs.DS.BM.after_zero ops, fun _ _ => ⟨rfl, rfl, rfl⟩⟩
 
-/-! ## interval tree -/
+/-! ## persistent ordered set
+
+Full statement (not proved yet — the lifting from `items` to heaps is missing):
+
+  theorem pset_refines (ops : List (PSOp T)) :
+      (PersistentSet.items T).run (PersistentSet.items T).init ops =
+        (Verif.Spec.DS.PS.items T).run (Verif.Spec.DS.PS.items T).init ops
+
+Model and spec run the *same* set-level code (`PSItems.step` in `Model/DS/Ops.lean`: parent chain on a
+heap, `Contains ForEach IsEmpty Add AddIntersection Clone`) and differ only in the `items` field:
+`*orderedmap.OrderedMap[T, struct{}]` (nil, then the zero value) against a plain list.  Proved below:
+every `items` operation of the model simulates the list operation.  Missing: the (routine) induction
+lifting this pointwise relation through heaps, chains and operation sequences; the `ds` stream
+compares both machines with the Go code on every `ps` line. -/
+
+/-- `items`-level simulation: the ordered-map field behaves as the list of its keys in insertion
+    order, for `Contains`, `Set` of a new item (the only way `Add` calls it), iteration and emptiness. -/
+theorem pset_items_refine_partial {T : Type} [DecidableEq T] :
+    Verif.Proofs.DS.PS.RI (PersistentSet.items T).nil (Verif.Spec.DS.PS.items T).nil ∧
+    ∀ (i : Option (OrderedMap.OM T Unit)) (l : List T), Verif.Proofs.DS.PS.RI i l →
+      (∀ x, (PersistentSet.items T).contains i x = (Verif.Spec.DS.PS.items T).contains l x) ∧
+      (∀ x, (PersistentSet.items T).contains i x = false →
+        Verif.Proofs.DS.PS.RI ((PersistentSet.items T).add i x) ((Verif.Spec.DS.PS.items T).add l x)) ∧
+      (PersistentSet.items T).list i = (Verif.Spec.DS.PS.items T).list l ∧
+      (PersistentSet.items T).nonEmpty i = (Verif.Spec.DS.PS.items T).nonEmpty l :=
+  ⟨rfl, fun _ _ h => ⟨Verif.Proofs.DS.PS.items_contains h, Verif.Proofs.DS.PS.items_add h,
+    Verif.Proofs.DS.PS.items_list h, Verif.Proofs.DS.PS.items_nonEmpty h⟩⟩
+
+example : (PersistentSet.items Nat).run (PersistentSet.items Nat).init
+    [.mk 0 none, .add 0 1, .clone 1 0, .add 1 2, .add 0 2, .each 1, .each 0, .has 1 1, .add 2 5] =
+    [.done, .done, .done, .done, .done, .items [2, 1, 2], .items [1, 2], .bool true, .goPanic] := by decide
+
+/-! ## interval tree
+
+Not proved: `searchAll` exact (`SearchAll p` = exactly the entries containing `p`, as a multiset) —
+checked on every `sa` operation of the `ds` stream against the spec. -/
 section ist
 open Verif.Model.DS.IntervalST Verif.Proofs.DS.IST
 
